@@ -3,6 +3,7 @@ CONSTANTS
   Inputs <- ShippedInputs
   GenEdits <- NoGenEdits
   Shipped = {"taxlabels_eof", "tree_eof", "empty", "ntax_none", "blockterm"}
+  TsrValues = {TRUE}
   GenSteps = 0
   Quick = TRUE
   PumpK = 3
